@@ -1,12 +1,7 @@
 import ComposeVerif.Lemmas.Cycle
 import ComposeVerif.Lemmas.Consistency
-/-! `newGraph` builds the dependency graph of the project — unless its `delete(s.DependsOn, name)` bites. -/
+/-! `newGraph` builds the dependency graph of the project. -/
 namespace CV.Consistency
-
-/-- no service both depends on itself and has an optional dependency that is not an enabled service
-(the input shape on which `newGraph` removes a self edge depending on the iteration order) -/
-def NoAmbiguousSelfDep (p : Proj) : Prop :=
-  ∀ e ∈ p.services, (∃ r, (e.1, r) ∈ e.2.dependsOn) → ∀ d ∈ e.2.dependsOn, d.1 ∈ p.enabled ∨ d.2 = true
 
 /-- what `newGraph` needs to succeed: every dependency is an enabled service or optional -/
 def DepsBuildable (p : Proj) : Prop :=
@@ -15,29 +10,20 @@ def DepsBuildable (p : Proj) : Prop :=
 def edgeList (verts : List String) (deps : List (String × Bool)) : List String :=
   (deps.map Prod.fst).filter (verts.contains ·)
 
-theorem edgesOf_ok (verts disabled : List String) (n : String) :
-    ∀ (deps : List (String × Bool)) (del : Bool),
-      (∀ d ∈ deps, d.1 ∈ verts ∨ d.2 = false) →
-      ((∀ d ∈ deps, d.1 ≠ n) ∨ (del = false ∧ ∀ d ∈ deps, d.1 ∈ verts)) →
-      edgesOf verts disabled n del deps = .ok (edgeList verts deps)
-  | [], _, _, _ => rfl
-  | (dep, req) :: rest, del, h1, h2 => by
-    have h1' : ∀ d ∈ rest, d.1 ∈ verts ∨ d.2 = false := fun d hd => h1 d (List.mem_cons_of_mem _ hd)
-    have hskip : (del && dep == n) = false := by
-      rcases h2 with h2 | ⟨h2, -⟩
-      · have := h2 (dep, req) (List.mem_cons_self ..)
-        simp [this]
-      · simp [h2]
+/-- the class `newGraph` reports for a required dependency that is not an enabled service -/
+def missingClass (disabled : List String) (dep : String) : Err :=
+  if disabled.contains dep then .requiredDisabled else .unknownService
+
+theorem edgesOf_ok (verts disabled : List String) :
+    ∀ (deps : List (String × Bool)), (∀ d ∈ deps, d.1 ∈ verts ∨ d.2 = false) →
+      edgesOf verts disabled deps = .ok (edgeList verts deps)
+  | [], _ => rfl
+  | (dep, req) :: rest, h1 => by
+    have ih := edgesOf_ok verts disabled rest (fun d hd => h1 d (List.mem_cons_of_mem _ hd))
     unfold edgesOf
-    simp only [hskip, Bool.false_eq_true, if_false]
     by_cases hv : dep ∈ verts
     · have hc : verts.contains dep = true := List.contains_iff_mem.mpr hv
-      have h2' : (∀ d ∈ rest, d.1 ≠ n) ∨ (del = false ∧ ∀ d ∈ rest, d.1 ∈ verts) := by
-        rcases h2 with h2 | ⟨h2, h3⟩
-        · exact .inl fun d hd => h2 d (List.mem_cons_of_mem _ hd)
-        · exact .inr ⟨h2, fun d hd => h3 d (List.mem_cons_of_mem _ hd)⟩
-      rw [edgesOf_ok verts disabled n rest del h1' h2']
-      simp [hc, hv, edgeList]
+      simp [hc, hv, ih, edgeList]
     · have hc : verts.contains dep = false := by
         cases h : verts.contains dep
         · rfl
@@ -46,47 +32,109 @@ theorem edgesOf_ok (verts disabled : List String) (n : String) :
         rcases h1 (dep, req) (List.mem_cons_self ..) with h | h
         · exact absurd h hv
         · exact h
-      have h2' : (∀ d ∈ rest, d.1 ≠ n) ∨ (true = false ∧ ∀ d ∈ rest, d.1 ∈ verts) := by
-        rcases h2 with h2 | ⟨-, h3⟩
-        · exact .inl fun d hd => h2 d (List.mem_cons_of_mem _ hd)
-        · exact absurd (h3 (dep, req) (List.mem_cons_self ..)) hv
-      simp only [hc, Bool.false_eq_true, if_false, hreq]
-      rw [edgesOf_ok verts disabled n rest true h1' h2']
-      simp [hc, hv, edgeList]
+      simp [hc, hv, hreq, ih, edgeList]
+
+/-- the inner loop fails iff some *required* dependency is not an enabled service; the class it reports is the
+class of such a dependency -/
+theorem edgesOf_error (verts disabled : List String) :
+    ∀ (deps : List (String × Bool)) (e : Err), edgesOf verts disabled deps = .error e →
+      ∃ d ∈ deps, d.1 ∉ verts ∧ d.2 = true ∧ e = missingClass disabled d.1
+  | [], e, h => by simp [edgesOf] at h
+  | (dep, req) :: rest, e, h => by
+    unfold edgesOf at h
+    by_cases hv : verts.contains dep = true
+    · simp only [hv, if_true] at h
+      cases hr : edgesOf verts disabled rest with
+      | ok es => rw [hr] at h; cases h
+      | error e' =>
+        rw [hr] at h; cases h
+        obtain ⟨d, hd, hp⟩ := edgesOf_error verts disabled rest e hr
+        exact ⟨d, List.mem_cons_of_mem _ hd, hp⟩
+    · simp only [hv, Bool.false_eq_true, if_false] at h
+      have hdv : dep ∉ verts := fun hh => hv (List.contains_iff_mem.mpr hh)
+      cases req with
+      | true =>
+        simp only [if_true, Except.error.injEq] at h
+        exact ⟨(dep, true), List.mem_cons_self .., hdv, rfl, h.symm⟩
+      | false =>
+        simp only [Bool.false_eq_true, if_false] at h
+        obtain ⟨d, hd, hp⟩ := edgesOf_error verts disabled rest e h
+        exact ⟨d, List.mem_cons_of_mem _ hd, hp⟩
+
+theorem edgesOf_error_of_mem (verts disabled : List String) :
+    ∀ (deps : List (String × Bool)) (d : String × Bool), d ∈ deps → d.1 ∉ verts → d.2 = true →
+      ∃ e, edgesOf verts disabled deps = .error e
+  | [], d, hd, _, _ => by cases hd
+  | (dep, req) :: rest, d, hd, hv, hr => by
+    unfold edgesOf
+    by_cases hc : verts.contains dep = true
+    · simp only [hc, if_true]
+      rcases List.mem_cons.mp hd with rfl | hd'
+      · exact absurd (List.contains_iff_mem.mp hc) hv
+      · obtain ⟨e, he⟩ := edgesOf_error_of_mem verts disabled rest d hd' hv hr
+        exact ⟨e, by rw [he]⟩
+    · simp only [hc, Bool.false_eq_true, if_false]
+      cases req with
+      | true => exact ⟨_, rfl⟩
+      | false =>
+        simp only [Bool.false_eq_true, if_false]
+        rcases List.mem_cons.mp hd with rfl | hd'
+        · cases hr
+        · exact edgesOf_error_of_mem verts disabled rest d hd' hv hr
 
 theorem buildGraph_ok (verts disabled : List String) :
-    ∀ (l : List (String × Svc)),
-      (∀ e ∈ l, ∀ d ∈ e.2.dependsOn, d.1 ∈ verts ∨ d.2 = false) →
-      (∀ e ∈ l, (∃ r, (e.1, r) ∈ e.2.dependsOn) → ∀ d ∈ e.2.dependsOn, d.1 ∈ verts ∨ d.2 = true) →
+    ∀ (l : List (String × Svc)), (∀ e ∈ l, ∀ d ∈ e.2.dependsOn, d.1 ∈ verts ∨ d.2 = false) →
       buildGraph verts disabled l = .ok (l.map fun e => (e.1, edgeList verts e.2.dependsOn))
-  | [], _, _ => rfl
-  | (n, s) :: r, h1, h2 => by
-    have e1 : edgesOf verts disabled n false s.dependsOn = .ok (edgeList verts s.dependsOn) := by
-      apply edgesOf_ok
-      · exact h1 (n, s) (List.mem_cons_self ..)
-      · by_cases hself : ∃ r, (n, r) ∈ s.dependsOn
-        · right
-          refine ⟨rfl, fun d hd => ?_⟩
-          rcases h2 (n, s) (List.mem_cons_self ..) hself d hd with h | h
-          · exact h
-          · rcases h1 (n, s) (List.mem_cons_self ..) d hd with h' | h'
-            · exact h'
-            · rw [h] at h'; cases h'
-        · left
-          intro d hd hne
-          exact hself ⟨d.2, by rw [← hne]; exact hd⟩
+  | [], _ => rfl
+  | (n, s) :: r, h1 => by
+    have e1 := edgesOf_ok verts disabled s.dependsOn (h1 (n, s) (List.mem_cons_self ..))
     have e2 := buildGraph_ok verts disabled r (fun e he => h1 e (List.mem_cons_of_mem _ he))
-      (fun e he => h2 e (List.mem_cons_of_mem _ he))
     simp only [buildGraph, e1, e2, List.map_cons]
+
+theorem buildGraph_error (verts disabled : List String) :
+    ∀ (l : List (String × Svc)) (e : Err), buildGraph verts disabled l = .error e →
+      ∃ x ∈ l, ∃ d ∈ x.2.dependsOn, d.1 ∉ verts ∧ d.2 = true ∧ e = missingClass disabled d.1
+  | [], e, h => by simp [buildGraph] at h
+  | (n, s) :: r, e, h => by
+    unfold buildGraph at h
+    cases he : edgesOf verts disabled s.dependsOn with
+    | error e' =>
+      rw [he] at h; cases h
+      obtain ⟨d, hd, hp⟩ := edgesOf_error verts disabled s.dependsOn e he
+      exact ⟨(n, s), List.mem_cons_self .., d, hd, hp⟩
+    | ok es =>
+      rw [he] at h
+      cases hr : buildGraph verts disabled r with
+      | ok g => rw [hr] at h; cases h
+      | error e' =>
+        rw [hr] at h; cases h
+        obtain ⟨x, hx, hp⟩ := buildGraph_error verts disabled r e hr
+        exact ⟨x, List.mem_cons_of_mem _ hx, hp⟩
+
+theorem buildGraph_error_of_mem (verts disabled : List String) :
+    ∀ (l : List (String × Svc)) (x : String × Svc), x ∈ l → ∀ d ∈ x.2.dependsOn, d.1 ∉ verts → d.2 = true →
+      ∃ e, buildGraph verts disabled l = .error e
+  | [], x, hx, _, _, _, _ => by cases hx
+  | (n, s) :: r, x, hx, d, hd, hv, hr => by
+    unfold buildGraph
+    cases he : edgesOf verts disabled s.dependsOn with
+    | error e' => exact ⟨e', rfl⟩
+    | ok es =>
+      simp only
+      rcases List.mem_cons.mp hx with rfl | hx'
+      · obtain ⟨e', he'⟩ := edgesOf_error_of_mem verts disabled _ d hd hv hr
+        rw [he] at he'; cases he'
+      · obtain ⟨e', he'⟩ := buildGraph_error_of_mem verts disabled r x hx' d hd hv hr
+        exact ⟨e', by rw [he']⟩
 
 theorem exactGraph_eq (p : Proj) : exactGraph p = p.services.map fun e => (e.1, edgeList p.enabled e.2.dependsOn) := rfl
 
-/-- on projects without the ambiguous shape, `newGraph` builds exactly the dependency graph -/
-theorem newGraph_eq_exact (p : Proj) (hb : DepsBuildable p) (hn : NoAmbiguousSelfDep p) :
-    newGraph p = .ok (exactGraph p) := by
+/-- `newGraph` builds exactly the dependency graph over the enabled services (every iteration order: the result
+lists the services in the order they were ranged, with the same edge sets) -/
+theorem newGraph_eq_exact (p : Proj) (hb : DepsBuildable p) : newGraph p = .ok (exactGraph p) := by
   unfold newGraph
   rw [exactGraph_eq]
-  exact buildGraph_ok p.enabled p.disabled p.services hb hn
+  exact buildGraph_ok p.enabled p.disabled p.services hb
 
 /-! ## the exact graph *is* the dependency relation -/
 
